@@ -71,6 +71,7 @@ struct RefRx {
     pend_fall: bool,
     retrig: bool,
     prio: u8,
+    last_note_on: bool, // the byte just fed completed a note-on (velocity > 0) on the listened channel
 }
 
 impl RefRx {
@@ -91,6 +92,7 @@ impl RefRx {
             pend_fall: false,
             retrig: false,
             prio: 0,
+            last_note_on: false,
         }
     }
     fn select(&mut self) {
@@ -118,6 +120,7 @@ impl RefRx {
         }
     }
     fn feed(&mut self, b: u8) {
+        self.last_note_on = false;
         let m = match self.dec.feed(b) {
             Some(m) => m,
             None => return,
@@ -128,6 +131,7 @@ impl RefRx {
                     self.note_off(n);
                 } else {
                     self.velocity = v as f32 / 127.0;
+                    self.last_note_on = true;
                     if self.outstanding.len() >= 32 {
                         self.overflowed = true;
                     }
@@ -203,6 +207,11 @@ fn parse(o: &[&str]) -> Option<Obs> {
 pub fn check(prop: &str, t: &Trace, r: &mut Report) {
     let mut start = 0;
     let mut rx: Option<RefRx> = None;
+    // C05 beyond 32 outstanding notes: which notes are held is no longer specified (C04 stops there), but the edge
+    // clauses are stated about gate() itself and about note-on messages, so they are followed from the *observed*
+    // gate: falling latch = an unread true->false change of gate() with no note-on since; rising latch = an unread
+    // note-on that found the gate low or arrived in retrigger mode, with no drop of the gate since.
+    let (mut og, mut l_rise, mut l_fall) = (false, false, false);
     for i in 0..t.ops.len() {
         let op = &t.ops[i];
         if op.is_empty() {
@@ -211,6 +220,9 @@ pub fn check(prop: &str, t: &Trace, r: &mut Report) {
         if op[0] == "midi" {
             start = i;
             rx = Some(RefRx::new(num(op[2]).min(255) as u8));
+            og = false;
+            l_rise = false;
+            l_fall = false;
         } else if op.len() >= 2 && op[1] == "new" {
             rx = None;
         }
@@ -238,17 +250,35 @@ pub fn check(prop: &str, t: &Trace, r: &mut Report) {
             }
         };
         let mut want_poll = None;
+        let mut want_obs_poll = None;
         match op[0] {
-            "byte" => x.feed(num(op[1]) as u8),
+            "byte" => {
+                x.feed(num(op[1]) as u8);
+                if x.last_note_on {
+                    if !og || x.retrig {
+                        l_rise = true;
+                    }
+                    l_fall = false;
+                }
+                if og && !o.gate {
+                    l_fall = true;
+                    l_rise = false;
+                }
+                og = o.gate;
+            }
             "retrig" => x.retrig = op[1] == "1",
             "prio" => x.prio = num(op[1]) as u8,
             "rising" => {
                 want_poll = Some(x.pend_rise);
                 x.pend_rise = false;
+                want_obs_poll = Some(l_rise);
+                l_rise = false;
             }
             "falling" => {
                 want_poll = Some(x.pend_fall);
                 x.pend_fall = false;
+                want_obs_poll = Some(l_fall);
+                l_fall = false;
             }
             _ => {}
         }
@@ -274,6 +304,20 @@ pub fn check(prop: &str, t: &Trace, r: &mut Report) {
             if let (Some(got), Some(want)) = (poll, want_poll) {
                 if got != want {
                     r.fail(i, start, "edge", format!("{} returned {} but the edge latch of the gate history says {}", op[0], got, want));
+                }
+                if got && op[0] == "rising" && !o.gate {
+                    r.fail(i, start, "edge", "rising edge reported while the gate is low".to_string());
+                }
+                if got && op[0] == "falling" && o.gate {
+                    r.fail(i, start, "edge", "falling edge reported while the gate is high".to_string());
+                }
+            }
+        }
+        if prop == "C05" && !notes_ok {
+            r.nt(h2(l_rise as u64 + 2 * l_fall as u64 + 4 * o.gate as u64, h2(77, poll.is_some() as u64)));
+            if let (Some(got), Some(want)) = (poll, want_obs_poll) {
+                if got != want {
+                    r.fail(i, start, "edge", format!("(more than 32 notes held) {} returned {} but the edge latch of the observed gate / note-on history says {}", op[0], got, want));
                 }
                 if got && op[0] == "rising" && !o.gate {
                     r.fail(i, start, "edge", "rising edge reported while the gate is low".to_string());
